@@ -73,12 +73,24 @@ def compare(lines, normal=None):
     """returns (impl_out, model_out, diffs) ; diffs = list of indices where the two differ.
     Model lines starting with 'U ' (unmodelled) are not disagreements."""
     t0 = time.time()
-    from concurrent.futures import ThreadPoolExecutor
     pool()   # fork the workers BEFORE any driver pipe exists (a forked child would keep the pipe open)
-    with ThreadPoolExecutor(1) as ex:
-        fut = ex.submit(modeldrv.run_model_parallel, lines, JOBS)
-        io = run_impl(lines)
-        mo = fut.result()
+    io = run_impl(lines)
+    # two-phase commands: the implementation's answer may carry extras for the model after a TAB
+    # (its own parse tree, the regex engine's answers)
+    mlines, midx = [], []
+    for i, (l, a) in enumerate(zip(lines, io)):
+        if '\t' in a:
+            a, extra = a.split('\t', 1)
+            io[i] = a
+            l = l + ' ' + extra
+        if a in ('parse-error', 'X RecursionError') :
+            continue
+        mlines.append(l)
+        midx.append(i)
+    mres = modeldrv.run_model_parallel(mlines, JOBS)
+    mo = ['U skipped'] * len(lines)
+    for i, r in zip(midx, mres):
+        mo[i] = r
     diffs = []
     for i, (a, b) in enumerate(zip(io, mo)):
         if b.startswith('U '):
